@@ -11,6 +11,7 @@
 //@ end
 //@ fn src/wasm.rs :: WasmKeeper :: response_type_url
 //@   ret r
+//@   replace "fn response_type_url(msg: &CosmosMsg<ExecC>) -> String" => "fn response_type_url(msg: &CosmosMsg<ExecC>) -> String"
 //@   drop_body
 //@   ensures [C03.type_url.fn] r == spec_type_url(*msg)
 //@ end
